@@ -172,7 +172,9 @@ def run(ctx, rep):
             rep.check(good, "R2", key(f, None, "guard: " + desc), f, hit[0].exprs[0] if hit else None,
                       "guard missing, mis-oriented or not refusing" if not good else "")
         # "exactly when": these are the only refusals - another one turns away orders the rules above let through
-        extra = sorted(all_errs - accounted)
+        handlers_ = [h for h in cfgf.live_nodes() if h.kind == "except"]
+        # a refusal on a failure path (the ladder could not be built) turns away nothing the ladder would accept
+        extra = sorted(x for x in all_errs - accounted if not any(cfgf.dominates(h.id, x) for h in handlers_))
         if fname in ("_validate_betfair_price", "_validate_betdaq_price", "_validate_size", "_validate_betfair_liability"):
             rep.check(not extra, "R2", key(f, None, "no refusal beyond the listed guards"), f,
                       cfgf.nodes[extra[0]].exprs[0] if extra else None,
